@@ -1,11 +1,16 @@
 //! One module per property.
 use crate::engine::Property;
 
+pub mod c01;
+pub mod c02;
+pub mod c06;
 pub mod c09;
 pub mod c10;
 pub mod c16;
 pub mod c17;
+pub mod c19;
+pub mod c20;
 
 pub fn all() -> Vec<Property> {
-    vec![c09::property(), c10::property(), c16::property(), c17::property()]
+    vec![c01::property(), c02::property(), c06::property(), c09::property(), c10::property(), c16::property(), c17::property(), c19::property(), c20::property()]
 }
